@@ -16,9 +16,16 @@ Tie to /repo, every run:
      `c13.export` vs the YAML the yaml target wrote; `c13.load` vs the type the real `Resolver.load_external` registered.
   K2 real round trip: exporter part -> yaml (per-type files / `out_file`), every document validated with
      `API().external_type_model`; the dependant built once with `@extern` and once with everything local; the dependant's
-     generated files must be identical ({path: sha256}) for cpp/java/jni/objc/objcpp/cppcli.
-  S  specification on the implementation's observations: `c13.spec` compares every applicable read through the really
-     loaded type with the read through the real local declaration (names the attribute), plus the file identity of K2.
+     generated files must be identical ({path: sha256}) for cpp/java/jni/objc/objcpp/cppcli. Exported names come from the slot
+     names, from the words `yaml.dump` has to quote and from keyword-like identifiers (also as namespaces); every dependant uses
+     every exported declaration in every wrapper at every position (`dependant`); a differing round trip is re-run with one
+     declaration and one usage site and reported under `roundtrip:<exported kind>:<wrapper>`.
+  K3 the loader alone: `c13.loadfile` (Lean `loadFile`: validate, register, `located` = the name is a plain scalar) vs the
+     registry of the real `Resolver.load_external` on the exported files (keys in order; the position delimits the name on a
+     `name:` line iff located). Theorems `loadFile_registers`, `export_registered`: registration does not depend on `located`.
+  S  specification on the implementation's observations: every exported declaration is registered under its qualified name
+     by the real loader (`key:<Kind>`), `c13.spec` compares every applicable read through the really loaded type with the read
+     through the real local declaration (names the attribute), plus the file identity of K2.
 """
 from __future__ import annotations
 
@@ -34,6 +41,9 @@ import genrun_f as genrun
 
 LEAN_MODULE = "PydjinniModel.Props.C13"
 THEOREMS = [
+    "Pydjinni.C13.loadFile_registers",
+    "Pydjinni.C13.loadFile_ok_of_valid_fresh",
+    "Pydjinni.C13.export_registered",
     "Pydjinni.C13.lookup_exportProps",
     "Pydjinni.C13.lookup_exportProps_none",
     "Pydjinni.C13.loaded_value",
@@ -314,64 +324,155 @@ def py_known(u):
 # programs: exporter part + dependant part (closed feature set)
 # ---------------------------------------------------------------------------------------------------------
 
-# exporter declarations: name -> (IDL, kind tag). All of them are exported; dependants only refer to `SAFE` ones
-# unless a finding shape is requested.
+# exporter declaration slots: slot -> (IDL template over the type's name `{n}`, kind tag). All declarations of the
+# exporter part are exported; dependants only refer to `SAFE` ones unless a finding shape is requested.
 EXPORTS = {
-    "xe": ("xe = enum { a; b; }\n", "enum"),
-    "xf": ("xf = flags { p; q; n = none; z = all; }\n", "flags"),
-    "xr": ("xr = record { v: i32; s: string; }\n", "record"),
-    "xd": ("xd = record { v: i32; s: string; } deriving(eq, ord)\n", "record"),
-    "xn": ("namespace ns { xn = record { k: i64; } }\n", "record"),
-    "xi": ("xi = interface +cpp { m(a: i32) -> i32; }\n", "interface"),
-    "xj": ("xj = interface +java +objc +cppcli { on(v: i32); }\n", "interface"),
-    "xa": ("xa = interface +cpp { async am(a: i32) -> i32; }\n", "interface"),
-    "xp": ("xp = interface +cpp { property pr: i32; }\n", "interface"),
-    "xfn": ("xfn = function (a: i32) -> bool;\n", "function"),
-    "xfc": ("xfc = function +cpp (a: i32, b: string);\n", "function"),
-    "xbj": ("xbj = record +java { v: i32; }\n", "record"),
-    "xerr": ("xerr = error { c1; c2(code: i32); }\n", "error"),
+    "xe": ("{n} = enum {{ a; b; }}\n", "enum"),
+    "xf": ("{n} = flags {{ p; q; n = none; z = all; }}\n", "flags"),
+    "xr": ("{n} = record {{ v: i32; s: string; }}\n", "record"),
+    "xd": ("{n} = record {{ v: i32; s: string; }} deriving(eq, ord)\n", "record"),
+    "xn": ("{n} = record {{ k: i64; }}\n", "record"),                     # always inside a namespace
+    "xi": ("{n} = interface +cpp {{ m(a: i32) -> i32; }}\n", "interface"),
+    "xj": ("{n} = interface +java +objc +cppcli {{ on(v: i32); }}\n", "interface"),
+    "xu": ("{n} = interface {{ on(v: i32) -> bool; }}\n", "interface"),    # no target flags: every language
+    "xa": ("{n} = interface +cpp {{ async am(a: i32) -> i32; }}\n", "interface"),
+    "xp": ("{n} = interface +cpp {{ property pr: i32; }}\n", "interface"),
+    "xfn": ("{n} = function (a: i32) -> bool;\n", "function"),
+    "xfc": ("{n} = function +cpp (a: i32, b: string);\n", "function"),
+    "xf0": ("{n} = function ();\n", "function"),
+    "xbj": ("{n} = record +java {{ v: i32; }}\n", "record"),
+    "xerr": ("{n} = error {{ c1; c2(code: i32); }}\n", "error"),
     # finding shapes
-    "xbc": ("xbc = record +cpp { v: i32; }\n", "base-record"),
-    "xbo": ("xbo = record +objc { v: i32; }\n", "base-record"),
-    "xbl": ("xbl = record +cppcli { v: i32; }\n", "base-record"),
+    "xbc": ("{n} = record +cpp {{ v: i32; }}\n", "base-record"),
+    "xbo": ("{n} = record +objc {{ v: i32; }}\n", "base-record"),
+    "xbl": ("{n} = record +cppcli {{ v: i32; }}\n", "base-record"),
 }
-SAFE = ["xe", "xf", "xr", "xd", "xn", "xi", "xj", "xa", "xp", "xfn", "xfc", "xbj"]
-VALUE_TYPES = {"xe", "xf", "xr", "xd", "xn", "xbj", "xbc", "xbo", "xbl"}     # usable inside list<>/map<>/optional record fields
-REF = {"xn": "ns.xn"}
+SAFE = ["xe", "xf", "xr", "xd", "xn", "xi", "xj", "xu", "xa", "xp", "xfn", "xfc", "xf0", "xbj"]
+
+# Names of exported types. Every IDL identifier (`Letter (Letter|Digit|_)*` that is no IDL keyword) is a legal type name:
+#  * words the YAML 1.1 resolver of PyYAML reads as bool/null — `yaml.dump` writes them quoted (`name: 'on'`);
+#  * `y`/`n` (YAML 1.1 bools that PyYAML writes plain), identifiers that are keywords / literals / built-in names of some
+#    target language or of Python but legal *type* names under every naming configuration below (the generators convert
+#    the case or add a prefix); excluded because the *all-local* build refuses them: class, nil, self, type (Objective-C).
+YAML_WORDS = ["on", "off", "yes", "no", "true", "false", "null", "On", "OFF", "Yes", "NO", "True", "FALSE", "Null", "NULL"]
+KEYWORDISH = ["y", "n", "int", "default", "void", "id", "delete", "new", "struct", "import", "object", "name", "template", "final",
+              "None", "register", "union", "typedef", "auto", "package", "native", "char", "double", "in", "out", "ref", "var",
+              "val", "let", "is", "as", "this", "super", "throw", "try"]
+# namespaces are spelled as they are in C++/Java/C#: only words that are no keyword there
+NAMESPACES = ["ns", "on", "off", "yes", "no", "null", "Null", "y", "n", "id", "object", "name", "in", "out", "ref", "var", "is", "as",
+              "on.off", "a.null", "yes.no.on"]
+NAMINGS = ["slots", "yaml-words", "keywordish", "mixed"]
+YAML_LOWER = {w.lower() for w in YAML_WORDS}
+
+# how a dependant can wrap a reference to an exported type …
+WRAPS = [("pl", "{t}"), ("op", "{t}?"), ("li", "list<{t}>"), ("se", "set<{t}>"), ("mv", "map<string, {t}>"), ("mk", "map<{t}, i32>"),
+         ("lo", "list<{t}?>"), ("ol", "list<{t}>?"), ("ll", "list<list<{t}>>"), ("ml", "map<string, list<{t}?>>?")]
+# … and where the wrapped reference can stand (`members`: position tag -> template over site name `{s}` and type `{w}`)
+CPP_MEMBERS = [("cm", "    {s}(p: {w}) -> {w};\n"), ("cs", "    static {s}(p: {w}, q: i32) -> {w};\n"), ("cc", "    const {s}(p: {w});\n"),
+               ("ca", "    async {s}(p: {w}) -> {w};\n"), ("cp", "    property {s}: {w};\n")]
+JAVA_MEMBERS = [("jm", "    {s}(p: {w}) -> {w};\n"), ("ja", "    async {s}(p: {w}) -> {w};\n"), ("jp", "    property {s}: {w};\n")]
+KIND_OF_TAG = {"enum": "enum", "flags": "flags", "record": "record", "base-record": "record", "interface": "interface", "function": "function"}
 
 
-def ref(n):
-    return REF.get(n, n)
+def legal_field(tag: str, wrap: str) -> bool:
+    """parser rule: an interface (also an optional one) is no record field type"""
+    return not (tag == "interface" and wrap in ("pl", "op"))
 
 
-def dependant(r: random.Random, names: list[str], throws: bool = False) -> str:
-    """dependant declarations over the exported `names`"""
-    vals = [n for n in names if n in VALUE_TYPES]
+def site(slot: str, wrap: str, pos: str) -> str:
+    """the name of a usage site spells out what is used where: the differing line of a generated file names the shape"""
+    return f"u_{slot}_{wrap}_{pos}"
+
+
+def dependant(r: random.Random, decls: list[dict], throws: str | None = None, rot: int = 0) -> str:
+    """dependant declarations over the exported declarations `decls` ({slot, tag, ref}): every declaration in every
+    wrapper, at every kind of position (record field with/without deriving, parameter / return / property of a C++ and of
+    a Java/ObjC/C# implemented interface, static/const/async methods, named and inline function signatures)."""
     out = []
-    if vals:
-        fields = []
-        for i, n in enumerate(r.sample(vals, k=min(len(vals), r.choice([1, 2, 3, 5])))):
-            shape = r.choice(["{t}", "{t}", "{t}?", "list<{t}>", "map<string, {t}>", "list<{t}?>"])
-            fields.append(f"    f{i}: {shape.format(t=ref(n))};\n")
-        out.append("dr = record {\n" + "".join(fields) + "}\n")
-    ms = []
-    for i in range(r.choice([1, 2, 4])):
-        ps = ", ".join(f"p{j}: {ref(r.choice(names))}" for j in range(r.choice([0, 1, 2, 3])))
-        ret = r.choice(["", "", " -> " + ref(r.choice(names)), " -> list<" + ref(r.choice(vals)) + ">" if vals else ""])
-        mod = r.choice(["", "", "static ", "const "])
-        thr = " throws xerr" if throws and i == 0 else ""
-        ms.append(f"    {mod}m{i}({ps}){thr}{ret};\n")
-    out.append("di = interface +cpp {\n" + "".join(ms) + "}\n")
-    if r.random() < 0.6:
-        ps = ", ".join(f"p{j}: {ref(r.choice(names))}" for j in range(r.choice([1, 2])))
-        ret = r.choice(["", " -> " + ref(r.choice(vals))]) if vals else ""
-        thr = " throws xerr" if throws else ""
-        out.append("dj = interface +java +objc +cppcli {\n    on(" + ps + ")" + thr + ret + ";\n}\n")
-    if vals and r.random() < 0.5:
-        out.append(f"dfn = function (a: {ref(r.choice(vals))}) -> {ref(r.choice(vals))};\n")
-    if vals and r.random() < 0.3:
-        out.append(f"dk = interface +cpp {{\n    cb(f: (a: {ref(r.choice(vals))}) -> bool);\n    async am() -> {ref(r.choice(vals))};\n}}\n")
+    plain, eq, ordd = [], [], []
+    cpp, java = [], []
+    fn_sites = []
+    for d in decls:
+        for wi, (wn, wt) in enumerate(WRAPS):
+            w = wt.format(t=d["ref"])
+            if legal_field(d["tag"], wn):
+                plain.append(f"    {site(d['slot'], wn, 'fp')}: {w};\n")
+                eq.append(f"    {site(d['slot'], wn, 'fe')}: {w};\n")
+                if wn in ("pl", "op"):          # 'ord' is refused for collections
+                    ordd.append(f"    {site(d['slot'], wn, 'fo')}: {w};\n")
+            for pn, pt in CPP_MEMBERS:
+                cpp.append(pt.format(s=site(d["slot"], wn, pn), w=w))
+            for pn, pt in JAVA_MEMBERS:
+                java.append(pt.format(s=site(d["slot"], wn, pn), w=w))
+            fn_sites.append((site(d["slot"], wn, "np"), w))
+    # every declaration of the dependant is ~10 generated files (the cost of a case): the record with deriving, the named
+    # signature and the inline signatures rotate with the case number `rot`
+    if plain:
+        out.append("dr = record {\n" + "".join(plain) + "}\n")
+        if (rot + rot // len(SAFE)) % 2 == 0 or not ordd:
+            out.append("dre = record {\n" + "".join(eq) + "} deriving(eq)\n")
+        else:
+            out.append("dro = record {\n" + "".join(ordd) + "} deriving(eq, ord)\n")
+    thr = f" throws {throws}" if throws else ""
+    if throws:
+        cpp.insert(0, f"    mthrows(p: i32){thr} -> i32;\n")
+        java.insert(0, f"    onthrows(){thr};\n")
+    # inline signatures over one declaration: the wrappers of the three parameters and of the returned type rotate
+    for which, (members, pn) in enumerate(((cpp, "ip"), (java, "ir"))):
+        d = decls[(rot + which) % len(decls)]
+        wn, wt = WRAPS[(rot // len(decls) + 3 * which) % len(WRAPS)]
+        # (the generated file names spell the whole signature out: three parameters keep them below the 255 bytes of a file name)
+        ws = [WRAPS[(rot + 3 * which + 1 + j) % len(WRAPS)] for j in range(3)]
+        params = ", ".join(f"{site(d['slot'], x, 'ia' if pn == 'ip' else 'ib')}: {t.format(t=d['ref'])}" for x, t in ws)
+        sig = f"({params}) -> {wt.format(t=d['ref'])}"
+        members.append(f"    {site(d['slot'], wn, pn)}(f: {sig});\n" if pn == "ip" else f"    {site(d['slot'], wn, pn)}() -> {sig};\n")
+    out.append("di = interface +cpp {\n" + "".join(cpp) + "}\n")
+    out.append("dj = interface +java +objc +cppcli {\n" + "".join(java) + "}\n")
+    ret = fn_sites[rot % len(fn_sites)][1]
+    params = ", ".join(f"{s}: {w}" for s, w in fn_sites)
+    out.append(f"dfn = function{' +cpp' if rot % 4 >= 2 else ''} ({params}) -> {ret};\n")
     return "".join(out)
+
+
+def single_site_dependant(d: dict, wn: str, pn: str) -> str | None:
+    """the smallest dependant that has the usage site (declaration `d`, wrapper `wn`, position `pn`)"""
+    w = dict(WRAPS)[wn].format(t=d["ref"])
+    s = site(d["slot"], wn, pn)
+    if pn in ("fp", "fe", "fo"):
+        return "dr = record {\n    " + s + ": " + w + ";\n}" + {"fp": "", "fe": " deriving(eq)", "fo": " deriving(eq, ord)"}[pn] + "\n"
+    if pn in dict(CPP_MEMBERS):
+        return "di = interface +cpp {\n" + dict(CPP_MEMBERS)[pn].format(s=s, w=w) + "}\n"
+    if pn in dict(JAVA_MEMBERS):
+        return "dj = interface +java +objc +cppcli {\n" + dict(JAVA_MEMBERS)[pn].format(s=s, w=w) + "}\n"
+    if pn == "np":
+        return f"dfn = function ({s}: {w}) -> {w};\n"
+    if pn in ("ip", "ia"):
+        return f"di = interface +cpp {{\n    {s}(f: ({s}: {w}) -> {w});\n}}\n"
+    if pn in ("ir", "ib"):
+        return f"dj = interface +java +objc +cppcli {{\n    {s}() -> ({s}: {w}) -> {w};\n}}\n"
+    return None
+
+
+def minimised(c: dict, m: tuple) -> dict | None:
+    """one exported declaration, one usage site — same names, configuration and export mode"""
+    slot = next((x for x in EXPORTS if x.lower() == m[0]), None)
+    if slot is None or "names" not in c or slot not in c.get("slots", ()):
+        return None
+    names = {k: tuple(v) for k, v in c["names"].items()}
+    dep = single_site_dependant(decl_refs([slot], names)[0], m[1], m[2])
+    if dep is None:
+        return None
+    return {**{k: c[k] for k in ("config", "config_name", "mode", "naming")}, "exp": exporter_text([slot], names), "dep": dep,
+            "shape": "minimised", "slots": [slot]}
+
+
+def narrowed(c: dict) -> list[dict]:
+    """one exported declaration with its whole dependant — for differences that no line names a usage site for (includes, …)"""
+    if "names" not in c or len(c.get("slots", ())) < 2:
+        return []
+    names = {k: tuple(v) for k, v in c["names"].items()}
+    return [{**{k: c[k] for k in ("config", "config_name", "mode", "naming")}, "exp": exporter_text([slot], names),
+             "dep": dependant(random.Random(0), decl_refs([slot], names), rot=c.get("rot", 0)), "shape": "narrowed", "slots": [slot]} for slot in c["slots"]]
 
 
 CONFIGS = [
@@ -382,18 +483,67 @@ CONFIGS = [
                 "java": {"identifier": {"type": {"style": "PascalCase", "prefix": "J"}}},
                 "objc": {"identifier": {"type": {"style": "PascalCase", "prefix": "O"}}},
                 "cppcli": {"identifier": {"type": {"style": "PascalCase", "prefix": "N"}}}}),
+    # options that make the rendering of a reference depend on its optionality / on the primitive kind of the type
+    ("nullability", {"cpp": {"not_null": {"header": "<gsl/pointers>", "type": "::gsl::not_null"}, "string_serialization": True},
+                     "java": {"nullable_annotation": "@org.x.Nullable", "nonnull_annotation": "@org.x.NonNull", "interfaces": True},
+                     "objc": {"strict_protocols": True}}),
 ]
 
 
+def draw_names(r: random.Random, slots: list[str], naming: str, allow_same_name: bool) -> dict:
+    """slot -> (name, namespace | None); names are distinct up to case unless two declarations live in different namespaces
+    of one `out_file` (per-type files are named after the bare name: that collision is property C15's)"""
+    pools = {"slots": [], "yaml-words": YAML_WORDS, "keywordish": KEYWORDISH, "mixed": YAML_WORDS + KEYWORDISH}
+    pool = list(pools[naming])
+    r.shuffle(pool)
+    out, taken = {}, set()
+    for s in slots:
+        ns = None
+        if s == "xn" or r.random() < 0.3:
+            ns = r.choice(NAMESPACES)
+        name = s
+        if pool and (naming != "mixed" or r.random() < 0.7):
+            cand = [n for n in pool if n.lower() not in taken]
+            if cand:
+                name = cand[0]
+                pool.remove(name)
+        if allow_same_name and ns and out and r.random() < 0.3:
+            other = r.choice(sorted(out))
+            if out[other][1] != ns:
+                name = out[other][0]
+        taken.add(name.lower())
+        out[s] = (name, ns)
+    return out
+
+
+def exporter_text(slots: list[str], names: dict) -> str:
+    out = []
+    for s in slots:
+        name, ns = names[s]
+        decl = EXPORTS[s][0].format(n=name)
+        out.append(f"namespace {ns} {{ {decl.rstrip()} }}\n" if ns else decl)
+    return "".join(out)
+
+
+def decl_refs(slots: list[str], names: dict) -> list[dict]:
+    return [{"slot": s, "tag": EXPORTS[s][1], "ref": (names[s][1] + "." if names[s][1] else "") + names[s][0]} for s in slots]
+
+
 def gen_case(r: random.Random, i: int) -> dict:
-    k = r.choice([1, 2, 3, 4, 6, len(SAFE)])
-    names = sorted(r.sample(SAFE, k=k))
+    k = r.choice([1, 2, 3, 4])
+    # every slot is due once per len(SAFE) cases, the others are drawn
+    slots = [SAFE[i % len(SAFE)]] + r.sample([s for s in SAFE if s != SAFE[i % len(SAFE)]], k=k - 1)
+    slots.sort(key=SAFE.index)
+    # configuration x naming x export mode: every pair within 16 consecutive cases
     cfg_name, cfg = CONFIGS[i % len(CONFIGS)]
-    mode = "out_file" if i % 2 else "per_type"
-    exp = "".join(EXPORTS[n][0] for n in names)
+    naming = NAMINGS[(i + i // 4) % len(NAMINGS)]
+    mode = "out_file" if (i + i // 8) % 2 else "per_type"
+    names = draw_names(r, slots + ["xerr"], naming, allow_same_name=(mode == "out_file"))
+    exp = exporter_text(slots, names)
     if r.random() < 0.3:
-        exp += EXPORTS["xerr"][0]      # exported, but no dependant throws it
-    return {"exp": exp, "dep": dependant(r, names), "config": cfg, "config_name": cfg_name, "mode": mode, "shape": "closed"}
+        exp += exporter_text(["xerr"], names)      # exported, but no dependant throws it
+    return {"exp": exp, "dep": dependant(r, decl_refs(slots, names), rot=i), "config": cfg, "config_name": cfg_name, "mode": mode,
+            "shape": "closed", "naming": naming, "slots": slots, "rot": i, "names": {k: list(v) for k, v in names.items()}}
 
 
 # ---------------------------------------------------------------------------------------------------------
@@ -459,7 +609,9 @@ def loaded_tables(yaml_paths):
     model = api.external_type_model
     res = Resolver(model)
     out = {}
+    texts = {}
     for p in yaml_paths:
+        texts[str(p)] = Path(p).read_text()
         res.load_external(Path(p))
     gen_keys = [k for k in model.model_fields if k not in ("name", "namespace", "primitive", "params", "comment", "deprecated", "position")]
     for key, t in res.registry.items():
@@ -468,7 +620,16 @@ def loaded_tables(yaml_paths):
         for g in gen_keys:
             v = getattr(t, g)
             gens.append([g, None if v is None else [[k, jval(x)] for k, x in v.model_dump(mode="json").items()]])
-        out[key] = {"base": base, "gens": gens}
+        # the position the loader computed: line/columns when it found the `name:` line, otherwise only the file
+        pos = getattr(t, "position", None)
+        located = bool(pos is not None and pos.start is not None)
+        points_at = None
+        if located:
+            lines = texts.get(str(pos.file), "").split("\n")
+            line = lines[pos.start.line - 1] if 0 < pos.start.line <= len(lines) else ""
+            points_at = line[pos.start.col:pos.end.col] if pos.end is not None and pos.end.line == pos.start.line else None
+        out[key] = {"base": base, "gens": gens, "located": located, "points_at": points_at,
+                    "file": None if pos is None or pos.file is None else Path(pos.file).name}
     return out
 
 
@@ -476,7 +637,9 @@ def hook_export(job, ctx_obj, jobdir):
     return {"decls": decl_tables(ctx_obj, job["node_attrs"])}
 
 
-def hook_dependant(job, ctx_obj, jobdir):
+def hook_loader(job, ctx_obj, jobdir):
+    """the loader alone (a root file that only pulls the YAML files in): what is registered does not depend on whether a
+    dependant can be built"""
     src = Path(jobdir) / "src"
     return {"loaded": loaded_tables(sorted(str(p) for p in (src / "ext").glob("*.yaml")))}
 
@@ -499,16 +662,52 @@ def model_doc_canon(m):
     return {"base": sorted(m["base"]), "gens": sorted([g, sorted(kv)] for g, kv in m["gens"])}
 
 
-def shape_of(case) -> str:
+WRAP_NAMES = {"pl": "plain", "op": "optional", "li": "list", "se": "set", "mv": "map-value", "mk": "map-key", "lo": "list-of-optional",
+              "ol": "optional-list", "ll": "list-of-list", "ml": "optional-map-of-list-of-optional"}
+SITE_RE = re.compile("u(" + "|".join(sorted((x.lower() for x in EXPORTS), key=len, reverse=True)) + ")(" + "|".join(WRAP_NAMES) + ")([a-z]{2})")
+
+
+SITES_SEEN: set = set()
+
+
+def possible_sites() -> set:
+    out = set()
+    for kind in ("enum", "flags", "record", "interface", "function"):
+        for wn, _ in WRAPS:
+            for pn in ["fp", "fe", "fo"] + [x for x, _ in CPP_MEMBERS + JAVA_MEMBERS] + ["np"]:
+                if pn in ("fp", "fe", "fo") and not legal_field(kind, wn):
+                    continue
+                if pn == "fo" and wn not in ("pl", "op"):
+                    continue
+                out.add((kind, wn, pn))
+    return out
+
+
+def differing_sites(local_text: str, extern_text: str) -> list[tuple]:
+    """usage sites (slot, wrapper, position) named on lines of the @extern build that the all-local build does not have"""
+    have = set(local_text.split("\n"))
+    out = []
+    for line in extern_text.split("\n"):
+        if line not in have:
+            for m in SITE_RE.finditer(line.replace("_", "").lower()):
+                if m.groups() not in out:
+                    out.append(m.groups())
+    return out
+
+
+def shape_of(case, sites=()) -> str:
     dep = case["dep"]
-    if "throws xerr" in dep:
+    if re.search(r"\bthrows\s+\w", dep):
         return "extern-error-domain-thrown"
     if re.search(r"\bxb[col]\b", dep):
         return "extern-base-record"
+    if sites:
+        slot, wrap, _ = sites[0]
+        return KIND_OF_TAG[EXPORTS[slot][1]] + ":" + WRAP_NAMES[wrap]
     return "other"
 
 
-def round_trips(ctx, cases, used, spec):
+def round_trips(ctx, cases, used, spec, minimise=True):
     import yaml
     from pydjinni import API
     ext_model = API().external_type_model
@@ -516,13 +715,14 @@ def round_trips(ctx, cases, used, spec):
     node_attrs = sorted({u["attr"] for u in used if u["gen"] == ""})
     used_req = [[u["gen"], u["attr"], u["ctx"]] for u in used]
     breaks = []
+    pending = []        # differing round trips: reported after the attempt to reproduce each shape with one declaration and one site
     # round 1: all-local build, and the export
     jobs = []
     for c in cases:
         cfg = c["config"]
         jobs.append({"files": {"main.djinni": c["exp"] + c["dep"]}, "root": "main.djinni", "targets": TARGETS, "config": cfg})
         ycfg = genrun.deep_merge(cfg, {"yaml": {"out_file": "all.yaml"}} if c["mode"] == "out_file" else {})
-        jobs.append({"files": {"exp.djinni": c["exp"]}, "root": "exp.djinni", "targets": TARGETS + ["yaml"], "config": ycfg,
+        jobs.append({"files": {"exp.djinni": c["exp"]}, "root": "exp.djinni", "targets": ["yaml"], "config": ycfg,
                      "hook": "props.c13:hook_export", "node_attrs": node_attrs})
     res1 = genrun.run_many(ctx.tmp / "r1", jobs, timeout=90)
     # round 2: the dependant with @extern
@@ -540,17 +740,21 @@ def round_trips(ctx, cases, used, spec):
         for n, t in yamls.items():
             files["ext/" + n] = t
         c["yamls"] = yamls
-        jobs2.append({"files": files, "root": "main.djinni", "targets": TARGETS, "config": c["config"], "hook": "props.c13:hook_dependant"})
+        jobs2.append({"files": files, "root": "main.djinni", "targets": TARGETS, "config": c["config"]})
+        lfiles = dict(files)
+        lfiles["main.djinni"] = "".join(f'@extern "ext/{n}"\n' for n in sorted(yamls))
+        jobs2.append({"files": lfiles, "root": "main.djinni", "targets": [], "config": c["config"], "hook": "props.c13:hook_loader"})
         idx2.append(k)
     res2 = genrun.run_many(ctx.tmp / "r2", jobs2, timeout=90)
     reqs, metas = [], []
-    for k, r2 in zip(idx2, res2):
+    for j, k in enumerate(idx2):
+        r2, rl = res2[2 * j], res2[2 * j + 1]
         c = cases[k]
         inp = {"exporter": c["exp"], "dependant": c["dep"], "config": c["config"], "mode": c["mode"]}
         # 1. every exported document validates against the published model; per-type files hold one document each
-        docs = {}
-        for n, t in c["yamls"].items():
-            for d in yaml.safe_load_all(t):
+        docs, doc_list = {}, []
+        for n in sorted(c["yamls"]):
+            for d in yaml.safe_load_all(c["yamls"][n]):
                 if d is None:
                     continue
                 try:
@@ -558,36 +762,68 @@ def round_trips(ctx, cases, used, spec):
                 except Exception as e:  # noqa
                     ctx.report("yaml:invalid:" + str(d.get("primitive")), "an exported YAML document does not validate against the external type model",
                                {"input": inp, "document": d, "error": str(e)[:400]})
-                docs[".".join(list(d.get("namespace", [])) + [d["name"]])] = d
+                docs[".".join(list(d.get("namespace", [])) + [str(d["name"])])] = d
+                doc_list.append(d)
         decls = {}
         for d in c["export"]["extra"]["decls"]:
             b = {k: v for k, v in d["base"]}
             decls[".".join(list(b["namespace"]) + [b["name"]])] = d
-        if set(docs) != set(decls):
+        if set(docs) != set(decls) or len(doc_list) != len(decls):
+            bare = {}
+            for k in decls:
+                bare.setdefault(k.split(".")[-1], []).append(k)
+            lost = sorted(set(decls) - set(docs))
+            if c["mode"] == "per_type" and lost and set(docs) <= set(decls) and all(len(bare[k.split(".")[-1]]) > 1 for k in lost):
+                # Dom clause distinctNamesPerTypeFile: `<name>.yaml` has no namespace component (property C15, overwrite:yaml:namespace-dropped)
+                ctx.count(key=("roundtrip", "same-name-per-type-file"), sample=inp)
+                ctx.report("yaml:document-set:same-name-per-type-file", "equally named types of different namespaces are exported to one per-type file: the later export replaces the earlier one",
+                           {"input": inp, "documents": sorted(docs), "declarations": sorted(decls), "lost": lost})
+                continue
             ctx.report("yaml:document-set", "the yaml target did not write exactly one document per named declaration",
                        {"input": inp, "documents": sorted(docs), "declarations": sorted(decls)})
-        # 2. the dependant
+        for key, d in decls.items():
+            name = key.split(".")[-1]
+            family = "yaml-word" if name.lower() in YAML_LOWER else "keywordish" if name in KEYWORDISH else "ordinary"
+            ctx.count(key=("name", d["kind"], c["mode"], family, "namespaced" if "." in key else "global"), nontrivial=True, sample={"type": key})
+            ctx.stat(f"name_{family}_{d['kind']}_{c['mode']}")
+        # 2. the loader on the exported files alone
+        loaded, loader_ok = {}, rl["ok"]
+        if not rl["ok"]:
+            ctx.report("load:fails:" + rl["stage"] + ":" + rl["cls"], "the exported YAML files cannot be pulled in with @extern",
+                       {"input": inp, "impl": rl})
+        else:
+            loaded = rl["extra"]["loaded"]
+            reqs.append({"op": "c13.loadfile", "spec": spec, "docs": [doc_req(d, gen_keys) for d in doc_list]})
+            metas.append(("loadfile", c, None, None, loaded))
+        # 3. the dependant
         if not r2["ok"]:
             ctx.count(key=("roundtrip", c["shape"], "dependant-fails"), sample=inp)
-            ctx.report("roundtrip:dependant-fails:" + r2["stage"] + ":" + r2["cls"], "the dependant builds with local types but not with the exported YAML",
-                       {"input": inp, "impl": r2})
-            continue
-        fa, fb = canon_files(c["local"]["files"]), canon_files(r2["files"])
-        differing = sorted(p for p in fb if fa.get(p) != fb[p])
-        tk = tuple(sorted({p.split("/")[0] for p in fb}))
-        ctx.count(key=("roundtrip", c["shape"], c["mode"], c["config_name"], len(decls), tuple(sorted(d["kind"] for d in decls.values()))),
-                  nontrivial=True, sample={"exporter": c["exp"][:300], "dependant": c["dep"][:300], "mode": c["mode"], "files_compared": len(fb)})
-        ctx.stat("roundtrips")
-        ctx.stat("files_compared", len(fb))
-        ctx.stat("mode_" + c["mode"])
-        ctx.stat("config_" + c["config_name"])
-        if differing:
-            first = differing[0]
-            ctx.report("roundtrip:" + shape_of(c), "files of the dependant differ between the @extern build and the all-local build",
-                       {"input": inp, "differing": differing[:12], "first": first,
-                        "extern_build": r2["files"][first][:1500], "local_build": c["local"]["files"].get(first, "<absent>")[:1500]})
-        # 3. function level + specification on the observations, per exported declaration
-        loaded = r2["extra"]["loaded"]
+            pending.append((c, [], "roundtrip:dependant-fails:" + r2["stage"] + ":" + r2["cls"], "the dependant builds with local types but not with the exported YAML",
+                            {"input": inp, "impl": r2}))
+        else:
+            fa, fb = canon_files(c["local"]["files"]), canon_files(r2["files"])
+            differing = sorted(p for p in fb if fa.get(p) != fb[p])
+            ctx.count(key=("roundtrip", c["shape"], c["mode"], c["config_name"], c.get("naming"), tuple(c.get("slots", ()))),
+                      nontrivial=True, sample={"exporter": c["exp"][:300], "dependant": c["dep"][:300], "mode": c["mode"], "files_compared": len(fb)})
+            for m in set(SITE_RE.findall(c["dep"].replace("_", "").lower())):
+                ctx.count(key=("site", KIND_OF_TAG[EXPORTS[m[0]][1]], m[1], m[2]), nontrivial=True, sample={"site": site(*m)})
+                SITES_SEEN.add((KIND_OF_TAG[EXPORTS[m[0]][1]], m[1], m[2]))
+            ctx.stat("roundtrips")
+            ctx.stat("files_compared", len(fb))
+            ctx.stat("mode_" + c["mode"])
+            ctx.stat("config_" + c["config_name"])
+            ctx.stat("naming_" + str(c.get("naming")))
+            if differing:
+                first = differing[0]
+                ext_text, loc_text = r2["files"][first], c["local"]["files"].get(first, "")
+                sites = differing_sites(loc_text, ext_text)
+                have = set(loc_text.split("\n"))
+                pending.append((c, sites, "roundtrip:" + shape_of(c, sites), "files of the dependant differ between the @extern build and the all-local build",
+                           {"input": inp, "differing": differing[:12], "first": first,
+                            "sites": [{"site": site(*m), "exported": EXPORTS[m[0]][1], "wrapper": WRAP_NAMES[m[1]], "position": m[2]} for m in sites[:8]],
+                            "extern_only_lines": [l for l in ext_text.split("\n") if l not in have][:6],
+                            "local_only_lines": [l for l in loc_text.split("\n") if l not in set(ext_text.split("\n"))][:6]}))
+        # 4. function level + specification on the observations, per exported declaration
         for key, d in decls.items():
             decl_req = {"base": d["base"], "node": d["node"], "marsh": d["marsh"]}
             reqs.append({"op": "c13.export", "decl": decl_req})
@@ -595,14 +831,31 @@ def round_trips(ctx, cases, used, spec):
             if key in docs:
                 reqs.append({"op": "c13.load", "spec": spec, "doc": doc_req(docs[key], gen_keys)})
                 metas.append(("load", c, key, d, loaded.get(key)))
-            if key in docs and key not in loaded:
-                ctx.report("key:" + d["kind"], "the type loaded from the exported YAML is not registered under the declaration's qualified name",
-                           {"input": {**inp, "type": key}, "registered": sorted(loaded)})
+            if loader_ok and key in docs and key not in loaded:
+                slot = next((sl for sl, (n, ns) in c.get("names", {}).items() if (ns + "." if ns else "") + n == key), None)
+                pending.append((c, [(slot.lower(), "pl", "cm")] if slot else [], "key:" + d["kind"],
+                                "the type loaded from the exported YAML is not registered under the declaration's qualified name",
+                                {"input": {**inp, "type": key}, "registered": sorted(loaded)}))
             if key in loaded:
                 reqs.append({"op": "c13.spec", "decl": decl_req, "loaded": loaded[key], "used": used_req, "primitive": d["primitive"]})
                 metas.append(("spec", c, key, d, loaded[key]))
             reqs.append({"op": "c13.roundtrip", "decl": decl_req, "spec": spec, "used": used_req, "primitive": d["primitive"]})
             metas.append(("model-roundtrip", c, key, d, None))
+    if pending:
+        minis, seen = [], set()
+        for c, sites, key, _, _ in pending:
+            if minimise and sites and key not in seen:
+                seen.add(key)
+                mc = minimised(c, sites[0])
+                if mc is not None:
+                    minis.append(mc)
+            elif minimise and key.startswith("roundtrip:other") and key not in seen:
+                seen.add(key)
+                minis += narrowed(c)
+        if minis:
+            breaks += round_trips(ctx, minis, used, spec, minimise=False)
+        for c, sites, key, what, body in pending:
+            ctx.report(key, what, body)
     answers = []
     for a0 in range(0, len(reqs), 400):
         answers += ctx.driver.batch(reqs[a0:a0 + 400])
@@ -610,6 +863,17 @@ def round_trips(ctx, cases, used, spec):
         if "error" in a:
             raise common.Infra(f"driver error {a} ({kind} {key})")
         inp = {"exporter": c["exp"], "dependant": c["dep"], "config": c["config"], "mode": c["mode"], "type": key}
+        if kind == "loadfile":
+            ctx.count(n=1)
+            inp.pop("type")
+            mine = None if "registered" not in a else [[".".join(e["key"][0] + [e["key"][1]]), e["located"]] for e in a["registered"]]
+            # located: the loader gave the type a position that delimits the name on a `name:` line of the file
+            theirs = [[k, bool(t["located"] and t["points_at"] == k.split(".")[-1])] for k, t in other.items()]
+            ctx.stat("loader_located", sum(1 for _, l in theirs if l))
+            ctx.stat("loader_not_located", sum(1 for _, l in theirs if not l))
+            if mine != theirs:
+                breaks.append({"what": "c13.loadfile vs the registry of Resolver.load_external (keys in order, name line located)", "model": a, "impl": theirs, "input": inp})
+            continue
         if kind == "export":
             ctx.count(key=("export", d["kind"], c["config_name"]), nontrivial=True, sample={"type": key, "kind": d["kind"]})
             ctx.stat("export_" + d["kind"])
@@ -648,13 +912,22 @@ def load_corpus():
 
 
 def run(ctx):
-    ctx.coverage["rule"] = ("round trips: distinct = (shape, export mode, naming configuration, number and kinds of the exported declarations); "
-                            "function level: one evaluation per exported declaration and op (export, load, spec)")
+    ctx.coverage["rule"] = ("round trips: distinct = (shape, export mode, configuration, naming family, exported slots); usage sites: distinct = (exported kind, wrapper, "
+                            "position); names: distinct = (declaration kind, export mode, name family, namespaced); function level: one evaluation per exported declaration "
+                            "and op (export, load, spec) and one per program for the whole-file load")
     ctx.assumptions += [
-        "closed feature set: exporter declarations " + ", ".join(SAFE) + " (+ xerr exported but not thrown); dependants: a record (plain, optional, list<>, map<>, list<T?> fields), "
-        "a +cpp interface (static/const methods, parameters, returns, list<> returns), a +java+objc+cppcli interface, a named function, an interface with an inline function "
-        "parameter and an async method; three naming configurations; per-type files and out_file",
-        "Dom clauses (findings): noExternErrorDomainThrown, noExternBaseRecord — excluded from the generator, one witness each in corpus/c13.json",
+        "closed feature set: exporter slots " + ", ".join(SAFE) + " (+ xerr exported but not thrown), 1-4 per program, each slot due every " + str(len(SAFE)) + " cases; "
+        "names of the exported types: the slot names, identifiers PyYAML has to quote (bool/null words of YAML 1.1 in three spellings), identifiers that are "
+        "keywords/literals elsewhere (" + str(len(KEYWORDISH)) + " words; class, nil, self, type are refused by the Objective-C generator for local declarations too), "
+        "global or inside 1-3 levels of namespaces whose names come from the same families; the same bare name in two namespaces only with out_file "
+        "(per-type files are named after the bare name: property C15)",
+        "dependants use every exported declaration in every wrapper (" + ", ".join(WRAP_NAMES.values()) + ") at every position: field of a record without / with deriving(eq) / "
+        "deriving(eq, ord) (plain and optional only), parameter+return of a method / static / const / async method and a property of a +cpp interface and of a "
+        "+java+objc+cppcli interface, parameters and (rotating) return of a named function and a +cpp function, inline function parameter/return types; "
+        "interfaces are no record fields (parser rule)",
+        "four configurations (default, namespaces, identifier styles, nullability options: cpp.not_null, Java nullable/nonnull annotations, java.interfaces, "
+        "objc.strict_protocols, cpp.string_serialization) x four naming families x per-type files / out_file: every pair within 16 consecutive cases",
+        "Dom clauses (findings): noExternErrorDomainThrown, noExternBaseRecord, distinctNamesPerTypeFile — excluded from the generator, one witness each in corpus/c13.json",
         "generated files are compared byte for byte (sha256); the banner names the same root file in both builds",
     ]
     api, gens = api_and_gens()
@@ -662,7 +935,7 @@ def run(ctx):
     cases = []
     for c in load_corpus():
         cases.append({**c, "config": c.get("config", {}), "config_name": c.get("config_name", "default"), "mode": c.get("mode", "per_type"), "shape": c.get("shape", "corpus")})
-    for i in range(ctx.n(30, 500)):
+    for i in range(ctx.n(32, 448)):
         r = random.Random(f"{ctx.seed}/c13/{i}")
         cases.append(gen_case(r, i))
     breaks = round_trips(ctx, cases, used, spec)
@@ -672,6 +945,11 @@ def run(ctx):
             if not py_loadable(spec, u) and not py_known(u) and not ctx.violations:
                 ctx.report(f"attr:{u['gen']}.{u['attr']}", "an attribute is read through a type definition but is no field of the external type model",
                            {"obligation": "used_loadable", "attribute": u}, no_failing_input=True)
+    poss = possible_sites()
+    ctx.stats["usage_sites_possible"] = len(poss)
+    ctx.stats["usage_sites_round_tripped"] = len(SITES_SEEN & poss)
+    ctx.stats["usage_sites_missing"] = ["/".join(x) for x in sorted(poss - SITES_SEEN)][:40]
+    ctx.stats["usage_sites_inline_signatures_round_tripped"] = len({x for x in SITES_SEEN if x[2] in ("ia", "ib", "ip", "ir")})    # rotating, of 5 x 10 x 4
     ctx.stats["correspondence_breaks"] = len(breaks)
     keys = {}
     for v in ctx.violations:
